@@ -10,7 +10,7 @@ Instead of teaching every rule every spelling, the program is rewritten once int
                      (expression helpers anywhere; statement helpers at statement level; tail calls; `yield from` helpers)
   C. local literals  single-assignment locals bound to a literal are substituted (attribute reads are NOT treated as pure:
                      `h = x.hasher` creates an object; value-level aliasing is the interpreter's business)
-  D. spellings       not a == b -> a != b ; x = x op y -> x op= y ; d.get(k, None) -> d.get(k) ; range(0, n) -> range(n) ;
+  D. spellings       not a == b -> a != b ; x = x op y -> x op= y ; d.get(k, None) -> d.get(k) ; range(0, n) -> range(n) ; filter(lambda x: c, it) -> (x for x in it if c) ;
                      super(K, self) -> super() ; v = a if c else b -> if c: v = a else: v = b ; len(x) == 0 (test) -> not x ;
                      if not c: A else: B -> if c: B else: A ; keyword arguments of resolvable callees -> positional
 
@@ -240,11 +240,13 @@ class Canon(object):
     def _canon_function(self, fn, cls, m, outer_first=None):
         self.outer_first = outer_first
         self._subst_consts(fn, cls, m)
+        self._stmt_comprehensions(fn)
         self._hoist_ifexp(fn)
         for _ in range(5):
             if not self._inline_round(fn, cls, m):
                 break
             self._hoist_ifexp(fn)
+            self._subst_consts(fn, cls, m)      # an inlined body brings its own references to new constants
         for _ in range(3):
             if not self._local_aliases(fn):
                 break
@@ -567,6 +569,14 @@ class Canon(object):
                 if isinstance(s, (ast.FunctionDef, ast.AsyncFunctionDef, ast.ClassDef)):
                     out.append(s)
                     continue
+                if isinstance(s, ast.For) and not s.orelse and len(s.body) == 1 and isinstance(s.body[0], ast.Expr) and \
+                        isinstance(s.body[0].value, ast.Yield) and isinstance(s.body[0].value.value, ast.Name) and isinstance(s.target, ast.Name) and \
+                        s.body[0].value.value.id == s.target.id and isinstance(s.iter, ast.Call):
+                    # `for v in self._helper(): yield v` re-yields a helper generator: the same as `yield from self._helper()`
+                    r = canon._resolve_callee(s.iter, fn, cls, m, closures)
+                    uses = sum(1 for n in ast.walk(fn) if isinstance(n, ast.Name) and n.id == s.target.id)
+                    if r is not None and is_generator(r[0]) and callee_ok(r[0]) and r[0] is not fn and uses == 2:
+                        s = ast.copy_location(ast.Expr(value=ast.copy_location(ast.YieldFrom(value=s.iter), s)), s)
                 exprs, hoistable = own_exprs(s)
                 done = False
                 for call, (callee, recv, kind) in find_calls(exprs):
@@ -668,6 +678,9 @@ class Canon(object):
                 used = {n.id for n in ast.walk(fn) if isinstance(n, ast.Name) and isinstance(n.ctx, ast.Load)}
 
                 class Dead(ast.NodeTransformer):
+                    def visit_ClassDef(self, node):
+                        return node                 # methods of a local class are not closures of the host
+
                     def visit_FunctionDef(self, node):
                         if node is fn:
                             return self.generic_visit(node)
@@ -706,6 +719,65 @@ class Canon(object):
         return [ast.For(target=ast.Name(id='%s%d' % (ONCE, self.counter), ctx=ast.Store()),
                         iter=ast.Tuple(elts=[ast.Constant(value=0)], ctx=ast.Load()), body=new + [ast.Break(lineno=line)] if not _always_leaves(new) else new,
                         orelse=[], lineno=line)]
+
+    # ---------------------------------------------------------------- [f(x) for x in it if c]  (statement)  ->  for loop
+    def _stmt_comprehensions(self, fn):
+        """A list / set comprehension evaluated as a statement (its value is discarded) is the loop it abbreviates:
+        `[f(x) for x in it if c]` -> `for x in it: if c: f(x)`.  A comprehension variable that is also a name of the
+        function's scope gets a fresh name (the comprehension had its own scope)."""
+        canon = self
+
+        def outside_names(comp):
+            inside = {id(n) for n in ast.walk(comp)}
+            return {n.id for n in ast.walk(fn) if isinstance(n, ast.Name) and id(n) not in inside} | \
+                {x.arg for x in fn.args.posonlyargs + fn.args.args + fn.args.kwonlyargs}
+
+        def convert(s):
+            comp = s.value
+            if any(g.is_async for g in comp.generators) or any(isinstance(n, (ast.Yield, ast.YieldFrom, ast.Await, ast.NamedExpr)) for n in ast.walk(comp)):
+                return s
+            own = {n.id for g in comp.generators for n in ast.walk(g.target) if isinstance(n, ast.Name)}
+            clash = own & outside_names(comp)
+            if clash:
+                ren = {n: canon._fresh(n) for n in clash}
+                first_iter = comp.generators[0].iter          # evaluated in the enclosing scope: not renamed
+                comp.generators[0].iter = ast.Constant(value=None)
+                comp = Subst(renames=ren).visit(comp)
+                comp.generators[0].iter = first_iter
+            body = [ast.Expr(value=comp.elt, lineno=s.lineno)]
+            for g in reversed(comp.generators):
+                if g.ifs:
+                    test = g.ifs[0] if len(g.ifs) == 1 else ast.BoolOp(op=ast.And(), values=list(g.ifs))
+                    body = [ast.If(test=test, body=body, orelse=[], lineno=s.lineno)]
+                t = g.target
+                for n in ast.walk(t):
+                    if isinstance(n, (ast.Name, ast.Tuple, ast.List, ast.Starred)):
+                        n.ctx = ast.Store()
+                body = [ast.For(target=t, iter=g.iter, body=body, orelse=[], lineno=s.lineno)]
+            canon.stats['spellings'] += 1
+            new = body[0]
+            for n in ast.walk(new):
+                if isinstance(n, (ast.stmt, ast.expr)) and not hasattr(n, 'lineno'):
+                    n.lineno = s.lineno
+            return ast.copy_location(new, s)
+
+        def rec(stmts):
+            out = []
+            for s in stmts:
+                if isinstance(s, (ast.FunctionDef, ast.AsyncFunctionDef, ast.ClassDef)):
+                    out.append(s)
+                    continue
+                if isinstance(s, ast.Expr) and isinstance(s.value, (ast.ListComp, ast.SetComp)):
+                    s = convert(s)
+                for name in ('body', 'orelse', 'finalbody'):
+                    sub_ = getattr(s, name, None)
+                    if isinstance(sub_, list) and sub_ and isinstance(sub_[0], ast.stmt):
+                        setattr(s, name, rec(sub_))
+                for h in getattr(s, 'handlers', []) or []:
+                    h.body = rec(h.body)
+                out.append(s)
+            return out
+        fn.body = rec(fn.body)
 
     # ---------------------------------------------------------------- v = a if c else b  ->  if statement
     def _hoist_ifexp(self, fn):
@@ -777,7 +849,8 @@ class Canon(object):
                     v = s.value
                     if stores.get(name) == 1 and name not in params and not name.startswith(ONCE):
                         if isinstance(v, ast.Constant) or (isinstance(v, ast.UnaryOp) and isinstance(v.operand, ast.Constant)) or \
-                                (isinstance(v, ast.Tuple) and v.elts and all(isinstance(e, ast.Constant) for e in v.elts)):
+                                (isinstance(v, ast.Tuple) and v.elts and all(isinstance(e, ast.Constant) for e in v.elts)) or \
+                                (isinstance(v, ast.Call) and _dotted(v.func) == 're.compile' and is_pure_literal(v)):     # a locally precompiled pattern
                             cands[name] = v
                             first_stmts[name] = s
                 for nm in ('body', 'orelse', 'finalbody'):
@@ -789,7 +862,7 @@ class Canon(object):
         scan(fn.body, False)
         # an alias is only safe when it is defined at the top level of the function body (dominates all uses)
         top = {id(s) for s in fn.body}
-        cands = {k: v for k, v in cands.items() if id(first_stmts[k]) in top or isinstance(v, (ast.Constant, ast.UnaryOp, ast.Tuple))}
+        cands = {k: v for k, v in cands.items() if id(first_stmts[k]) in top or isinstance(v, (ast.Constant, ast.UnaryOp, ast.Tuple, ast.Call))}
         # attribute aliases of properties with side effects are not our business: attribute reads are treated as pure
         if not cands:
             return False
@@ -1004,6 +1077,16 @@ class Spell(ast.NodeTransformer):
         if fn == 'range' and len(node.args) == 2 and isinstance(node.args[0], ast.Constant) and node.args[0].value == 0:
             node.args = node.args[1:]
             self._hit()
+        # filter(lambda x: c, it) -> (x for x in it if c)
+        if fn == 'filter' and len(node.args) == 2 and not node.keywords and isinstance(node.args[0], ast.Lambda):
+            la = node.args[0].args
+            if len(la.args) == 1 and not (la.posonlyargs or la.kwonlyargs or la.vararg or la.kwarg or la.defaults):
+                v = la.args[0].arg
+                new = ast.GeneratorExp(elt=ast.Name(id=v, ctx=ast.Load()),
+                                       generators=[ast.comprehension(target=ast.Name(id=v, ctx=ast.Store()), iter=node.args[1],
+                                                                     ifs=[node.args[0].body], is_async=0)])
+                self._hit()
+                return _relocate(new, node)
         # super(K, self) -> super()
         if fn == 'super' and len(node.args) == 2 and self.cls is not None and isinstance(node.args[0], ast.Name) and \
                 node.args[0].id == self.cls.name and isinstance(node.args[1], ast.Name) and node.args[1].id == self.first:
@@ -1020,6 +1103,19 @@ class Spell(ast.NodeTransformer):
                                args=[pat] + node.args, keywords=[ast.keyword(arg='flags', value=flags)] if flags is not None else [])
                 self._hit()
                 return _relocate(new, node)
+        # re.sub / re.subn: count=0 and flags=0 are the defaults (no limit, no flags); a positional flags argument becomes flags=
+        if fn in ('re.sub', 're.subn') and len(node.args) >= 3:
+            if len(node.args) == 5 and not any(k.arg == 'flags' for k in node.keywords):
+                node.keywords = node.keywords + [ast.keyword(arg='flags', value=node.args[4])]
+                node.args = node.args[:4]
+                self._hit()
+            if len(node.args) == 4 and isinstance(node.args[3], ast.Constant) and node.args[3].value == 0:
+                node.args = node.args[:3]
+                self._hit()
+            kept = [k for k in node.keywords if not (k.arg in ('count', 'flags') and isinstance(k.value, ast.Constant) and k.value.value == 0)]
+            if len(kept) != len(node.keywords):
+                node.keywords = kept
+                self._hit()
         # keyword arguments -> positional (resolvable repo callee with one signature under that name, or a known stdlib one)
         if node.keywords and base and not any(k.arg is None for k in node.keywords) and not any(isinstance(a, ast.Starred) for a in node.args):
             sig = self._signature(node, base)
